@@ -193,17 +193,18 @@ impl Check for C01 {
 }
 
 pub fn checks() -> Vec<Box<dyn DynCheck>> {
-    vec![Box::new(C01), Box::new(super::extendpaths::ExtBloom)]
+    vec![Box::new(C01), Box::new(super::extendpaths::ExtBloom), Box::new(super::giant::Giant)]
 }
 
 pub fn run(ctx: &Ctx) {
-    ctx.set_rule("generated: filter kind x configuration x BuildHasher family (Ident/Split/Sip/Seeded/Mix/Const/Mod) x scripted eviction RNG x colliding key universe (<=48 keys) x history of insert/delete/union/clear (<=80 quick, <=600 thorough); after every op every key the model holds must be queried true. Non-trivial: >=1 successful insert and one of {failed insert, failed union, successful union into a non-empty filter, cuckoo insert that drew RNG words, cuckoo delete with other members remaining, Bloom Ok(false) for a new key}. Distinct = hash of the whole case. evaluations counts operations executed (each followed by a full model sweep). extend_path: default-hasher BloomFilter (m 1..512, k 1..8) fed through Extend::extend in generated chunks (incl. empty ones): no false negative after any chunk, and query/len/is_empty equal to a filter filled by insert calls.");
+    ctx.set_rule("generated: filter kind x configuration x BuildHasher family (Ident/Split/Sip/Seeded/Mix/Const/Mod) x scripted eviction RNG x colliding key universe (<=48 keys) x history of insert/delete/union/clear (<=80 quick, <=600 thorough); after every op every key the model holds must be queried true. Non-trivial: >=1 successful insert and one of {failed insert, failed union, successful union into a non-empty filter, cuckoo insert that drew RNG words, cuckoo delete with other members remaining, Bloom Ok(false) for a new key}. Distinct = hash of the whole case. evaluations counts operations executed (each followed by a full model sweep). extend_path: default-hasher BloomFilter (m 1..512, k 1..8) fed through Extend::extend in generated chunks (incl. empty ones): no false negative after any chunk, and query/len/is_empty equal to a filter filled by insert calls. giant_tables: Bloom filters of 2^31+11, 2^32+15 and 2^33 bits (k = 3, 4, 2) with 200 inserted keys: no false negative, at most one of 200 probes reported present.");
     ctx.assume("model: multiset of keys whose insert returned Ok since the last clear, minus deletes of currently inserted keys, plus the other operand's keys after a successful union");
     ctx.run_regressions(&[&C01]);
     let tier = ctx.tier;
     ctx.run_random(&C01, tier.pick(400_000, 3_000_000), move || strategy(tier));
     // the Extend entry point of the default-hasher BloomFilter
     ctx.run_random(&super::extendpaths::ExtBloom, tier.pick(30_000, 300_000), super::extendpaths::bloom_strategy);
+    ctx.run_fixed(&super::giant::Giant, super::giant::bloom_cases(ctx.seed));
     ctx.require_class("history", "failed_insert", 0.05);
     ctx.require_class("history", "failed_union", 0.02);
     ctx.require_class("history", "cuckoo_eviction", 0.03);
